@@ -215,13 +215,15 @@ def find_script_len(target, make):
 class Sizes(Driver):
     id = "C20.size"
     rule = ("one state = one transaction whose witness-stripped / total size sits at 999 999, 1 000 000 or 1 000 001 bytes via one "
-            "large script (input, output, or coinbase output) with or without witness data; all are non-trivial")
+            "large script (input, output, or coinbase output) with or without witness data, and with input / output counts on both sides of "
+            "the compact-size boundaries 252/253 and 65535/65536; all are non-trivial")
 
     def __init__(self, tier, seed):
         Driver.__init__(self, tier, seed)
         self.coins = list(COINS) if tier == "thorough" else ["BTC", "GRS", "LTC"]
         self.bound = dict(stripped_targets=[999000, 999991, 999992, 999999, 1000000, 1000001], witness=["none", "w5 (9 bytes in total)", "w2000"],
-                          where=["in", "out", "coinbase-out"], coins=self.coins)
+                          where=["in", "out", "coinbase-out", "252/253 inputs", "252/253 outputs", "300 inputs + 300 outputs", "65535/65536 outputs (BTC)"],
+                          coins=self.coins)
 
     def units(self):
         for coin in self.coins:
@@ -229,6 +231,12 @@ class Sizes(Driver):
                 for target in (999000, 999991, 999992, 999999, 1000000, 1000001):
                     for wit in ("none", "w5", "w2000"):
                         yield dict(coin=coin, where=where, stripped=target, witness=wit)
+            # element counts on both sides of the 1-byte / 3-byte / 5-byte compact-size forms
+            for where in ("in252", "in253", "out252", "out253", "in300-out300", "out65535", "out65536"):
+                if coin != "BTC" and where.startswith("out6"):
+                    continue
+                for target in (999999, 1000000, 1000001, 1000002, 1000008):
+                    yield dict(coin=coin, where=where, stripped=target, witness="none")
 
     @staticmethod
     def make(where, wit, L):
@@ -240,9 +248,18 @@ class Sizes(Driver):
         elif where == "out":
             ins = [{"prev": A, "index": 0, "script": b"", "sequence": U32, "witness": w}]
             outs = [{"value": 1, "script": patbytes(L, 4)}]
-        else:
+        elif where == "coinbase-out":
             ins = [{"prev": bytes(32), "index": U32, "script": b"\x03\x01\x02\x03", "sequence": U32, "witness": w}]
             outs = [{"value": 50 * COIN, "script": patbytes(L, 5)}, {"value": 0, "script": b"\x6a"}]
+        else:
+            nin = nout = 1
+            for part in where.split("-"):
+                if part.startswith("in"):
+                    nin = int(part[2:])
+                else:
+                    nout = int(part[3:])
+            ins = [{"prev": A, "index": i, "script": patbytes(L, 3) if i == 0 else b"", "sequence": U32, "witness": []} for i in range(nin)]
+            outs = [{"value": 1, "script": b"\x51"} for i in range(nout)]
         return {"version": 2, "lock_time": 0, "ins": ins, "outs": outs}
 
     def run(self, case):
